@@ -16,12 +16,20 @@ class C03(PipelineCheck):
             'x seeded interleaving of 0..8 party scripts; the protocol state machine runs at every MuxObservable subscription. '
             'non-trivial: >= 4 key creations observed and >= 2 keys simultaneously live at some boundary; '
             'distinct = distinct (program, resolved schedule) pairs among the non-trivial ones')
-    assumptions = ['user functions are fault free (no OnErrorMux is generated)',
+    assumptions = ['about one case in eight injects user-function failures (fault plan of C13) so that OnErrorMux crosses boundaries too; after on_error nothing is demanded',
                    'the class-level patch of MuxObservable.__init__ sees every multiplexed boundary']
-    probe_names = ('inside_tee', 'nested_window', 'empty_source', 'stride_gt_window', 'window_gt_stream',
+    probe_names = ('with_item_errors', 'inside_tee', 'nested_window', 'empty_source', 'stride_gt_window', 'window_gt_stream',
                    'group_emptied_by_filter', 'labels>=12')
 
+    def flags(self):
+        return Flags(error_ops_ok=True)
+
     def gen(self, rng, tier):
+        if rng.random() < 0.12:
+            # item-level errors (fault plan of C13): an OnErrorMux must also be for a live key at every boundary it crosses
+            from .c13 import CHECK as C13
+            c = C13.gen(rng, tier)
+            return {'program': c['program'], 'events': c['events'], 'end': 'complete', 'style': c['style'], 'faults': c['faults']}
         parties, maxev = self.sizes(rng, tier)
         if rng.random() < 0.06:
             parties = 0
@@ -43,7 +51,10 @@ class C03(PipelineCheck):
 
     def execute(self, case):
         out = Outcome()
-        ctx, final, escaped = run_mux(case['program'], case['events'], case['end'], monitor=True, notaps=True)
+        ctx, final, escaped = run_mux(case['program'], case['events'], case['end'], monitor=True, notaps=True,
+                                      fail=case.get('faults'))
+        for site, n in ctx.fired.items():
+            out.faults['user_function_raised'] += n
         for label, what, key, seq in ctx.breaches:
             out.add(what, label, {'key': key, 'source_event': seq})
         creates = sum(b.ncreate for b in ctx.bounds)
@@ -54,6 +65,7 @@ class C03(PipelineCheck):
         out.steps = len(case['events']) + 1
         out.ticks = case['events'][-1]['t'] if case['events'] else 0
         out.digest = ctx.trace_digest() + repr(ctx.breaches) + repr(final.terminal)
+        out.states = tuple(ctx.extra.get('states', ()))
         p = out.probes
         ops = ops_in(case['program'])
         p['boundaries'] += len(ctx.bounds)
@@ -61,8 +73,11 @@ class C03(PipelineCheck):
             p['aborted_work_budget'] += 1
             out.nontrivial = False
         if escaped is not None or (final.terminal and final.terminal[0] == 'error'):
-            p['sut_error'] += 1
+            if not case.get('faults'):
+                p['sut_error'] += 1
             out.nontrivial = False
+        if ctx.fired:
+            p['with_item_errors'] += 1
         if 'tee_map' in ops:
             p['inside_tee'] += 1
         if depth_of(case['program']) >= 3:
